@@ -490,6 +490,13 @@ def l2_suite(profile, quick=60, thorough=1500, native=True, name=None, extra_mon
                 seen.add(body)
                 if re.search(r'; ok( nat:ok)? M \[ P', a) and re.search(r'; S[AD] ok [1-9]', a):
                     res.nontrivial += 1
+            # --- a Go panic inside the extension (recovered by the harness; in a real host it aborts
+            # the process) that the model does not predict
+            for j, (x, y) in enumerate(zip(iops, mops)):
+                if 'panic' in x and 'panic' not in y:
+                    res.property_failures.append(dict(suite=res.name, case=c, op_index=j, impl=' '.join(x)[:300], spec=' '.join(y)[:300],
+                                                      what='the statement panics inside the extension (host process abort) instead of returning a result or an error'))
+                    break
             # --- model correspondence, op by op
             excused_from = None
             def phantom_excuse(c, j, x, y):
@@ -610,6 +617,7 @@ def sql_ops_full(case):
         elif k in ('begin', 'commit', 'rollback'): i = names(i + 2)
         elif k == 'refresh': i = names(names(i + 2))
         elif k in ('version', 'rdconn'): i += 2
+        elif k == 'selo': i += 4
         elif k == 'vacuum': i = names(names(names(i + 3)))
         elif k == 'changes': i = names(names(i + 2))
         else: raise ValueError('sql_ops_full: ' + k)
@@ -727,6 +735,7 @@ def parse_sql_ops(case):
         elif k in ('begin', 'commit', 'rollback'): i = names(i + 2)
         elif k == 'refresh': i = names(names(i + 2))
         elif k in ('version', 'rdconn'): i += 2
+        elif k == 'selo': i += 4
         elif k == 'dl': i += 3
         elif k == 'vacuum': i = names(names(names(i + 3)))
         elif k == 'changes': i = names(names(i + 2))
@@ -792,7 +801,8 @@ def c02_monitor(ctx, res, case, impl_line, model_line, spec):
 register('C06', [l2_suite('single')],
          ['SQLite re-checks every constraint on rows returned by the cursor (no constraint is marked omit)',
           'write times set explicitly and non-decreasing', 'TEXT values are valid UTF-8'])
-register('C08', [l2_suite('single'), l0_suite(['merge_rows', 'merge_values'], monitor=c08_merge_monitor)],
+register('C08', [l2_suite('single'), l0_suite(['merge_rows', 'merge_values'], monitor=c08_merge_monitor),
+                 l2_suite('multi', native=False, extra_monitor=c02_monitor, name='l2-multi')],
          ['TEXT values are valid UTF-8 (others must be refused)'])
 
 register('C02', [l0_suite(['merge_rows', 'merge_values'], monitor=l0_determined('merging two entries written at different times does not give the result the documented rule fixes', funcs=['merge_values'], domain_only=True)),
@@ -962,6 +972,7 @@ def parse_sql_kinds(case):
         elif k in ('begin', 'commit', 'rollback'): out.append((k, int(t[i + 1]))); i = names(i + 2)
         elif k == 'refresh': out.append((k, int(t[i + 1]))); i = names(names(i + 2))
         elif k in ('version', 'rdconn'): out.append((k, int(t[i + 1]))); i += 2
+        elif k == 'selo': out.append((k, int(t[i + 1]))); i += 4
         elif k == 'vacuum': out.append((k, int(t[i + 1]))); i = names(names(names(i + 3)))
         elif k == 'changes': out.append((k, int(t[i + 1]))); i = names(names(i + 2))
         else: raise ValueError('parse_sql_kinds: ' + k)
